@@ -735,3 +735,16 @@ Proof.
   intros H [Hf1 Hf2] Hj. apply read_frames_truncated; [|now apply wf_readable|exact Hj].
   eapply Forall_impl; [|exact H]. intros g [H1 H2]. now apply wf_readable.
 Qed.
+
+(* the frames already delivered are read the same whatever bytes follow them -- a further frame, a
+   fragment of one, garbage, or nothing *)
+Theorem read_frames_prefix (fs1 : list frame) (rest : list N) :
+  Forall sendable fs1 ->
+  read_frames (write_delimited fs1 ++ rest) = let '(fs', e) := read_frames rest in (fs1 ++ fs', e).
+Proof.
+  unfold read_frames. induction fs1 as [|f fs1 IH]; intros H.
+  - cbn [write_delimited flat_map app]. destruct (frame_iterator (length rest) rest); reflexivity.
+  - inversion H as [|? ? [Hf1 Hf2] Hfs]; subst. unfold write_delimited in *. cbn [flat_map]. rewrite <- app_assoc.
+    rewrite (read_one f _ _ (wf_readable f Hf1 Hf2) (le_n _)). rewrite (IH Hfs).
+    destruct (frame_iterator (length rest) rest) as [fs' e]. reflexivity.
+Qed.
